@@ -113,6 +113,23 @@ CONFIG = {
             "/dnsaddr addresses (which need DNS resolution) are not generated",
         ],
     },
+    "C15": {
+        "pkg": "c15",
+        "legs": [
+            {"run": "^TestSections$", "quick": (8000, 6), "thorough": (200000, 12)},
+            {"run": "^TestEnv$", "quick": (6000, 1), "thorough": (100000, 2)},
+            {"run": "^TestManager$", "quick": (1500, 4), "thorough": (40000, 8)},
+            {"run": "^TestIdentity$", "quick": (300, 1), "thorough": (3000, 1)},
+        ],
+        "floors": {"sections": {"accepted": 8000, "rejected": 4000, "nontrivial": 10000}, "manager": {"accepted": 1000}},
+        "assumptions": [
+            QUIC,
+            "the field specification (harness/c15/spec_test.go) is hand-written from the JSON forms; a setting missing from both the code's JSON form and the specification is invisible",
+            "a numeric/duration zero, an empty string or an empty list may be replaced by the default: nothing is asserted for them beyond load => validate and the save/load fixpoint",
+            "a setting that ToJSON omits (omitempty when equal to the default) is not judged for that case",
+            "malformed values (wrong JSON type, unparsable) that the loader ignores are not counted as violations; accepted configurations must still validate and round-trip",
+        ],
+    },
     "C08": {
         "pkg": "c08",
         "regress": "^TestRegress",
